@@ -149,14 +149,27 @@ Definition head_step (m : sep_matcher) (head : str) (result word_parts : list st
 Lemma concat_snoc (l : list str) x : concat (l ++ [x]) = concat l ++ x.
 Proof. rewrite concat_app. cbn [concat]. rewrite app_nil_r. reflexivity. Qed.
 
+(* The loop invariant, for an abstract notion "P" of a well-formed piece and "H" of brace-free
+   text (instantiated below with balanced / no brace, and with clamped depth 0 / no opening brace). *)
+Section Loop.
+Variable P H : str -> Prop.
+Hypothesis P_app : forall a b, P a -> P b -> P (a ++ b).
+Hypothesis H_P : forall w, H w -> P w.
+Hypothesis H_flat : forall pairs l, H (flat pairs ++ l) ->
+  Forall H (map fst pairs) /\ Forall H (map snd pairs) /\ H l.
+Hypothesis P_group : forall head rest upto rest',
+  Forall (fun c => is_lbrace c = false) head -> P (head ++ c_lbrace :: rest) ->
+  find_closing_brace rest = (upto, rest') -> H head /\ P (c_lbrace :: upto) /\ P rest'.
+Hypothesis P_nogroup : forall head, Forall (fun c => is_lbrace c = false) head -> P head -> H head.
+
 Lemma head_step_spec m head pairs wp :
   exists pairs1 wp1,
     head_step m head (map fst pairs) wp = (map fst pairs1, wp1) /\
     flat pairs ++ concat wp ++ head = flat pairs1 ++ concat wp1 /\
     (Forall (matched m) (map snd pairs) -> Forall (matched m) (map snd pairs1)) /\
     ((wp = [] -> pairs = []) -> wp1 = [] -> pairs1 = [] /\ head = [] /\ wp = []) /\
-    (Forall balanced (map fst pairs) -> Forall nobrace (map snd pairs) -> balanced (concat wp) -> nobrace head ->
-       Forall balanced (map fst pairs1) /\ Forall nobrace (map snd pairs1) /\ balanced (concat wp1)).
+    (Forall P (map fst pairs) -> Forall H (map snd pairs) -> P (concat wp) -> H head ->
+       Forall P (map fst pairs1) /\ Forall H (map snd pairs1) /\ P (concat wp1)).
 Proof.
   destruct head as [|c0 h0].
   - exists pairs, wp. cbn [head_step]. rewrite !app_nil_r. repeat split; auto.
@@ -167,8 +180,8 @@ Proof.
     + exists pairs, (wp ++ [hl]). cbn [flat flat_map app] in H2. rewrite H2, concat_snoc.
       split; [reflexivity|]. split; [reflexivity|]. split; [auto|]. split.
       * intros _ E. apply app_eq_nil in E as [_ E]. discriminate.
-      * intros Hb Hn Hw Hh. repeat split; try assumption. apply balanced_app; [exact Hw|].
-        apply nobrace_balanced. subst hl. exact Hh.
+      * intros Hb Hn Hw Hh. repeat split; try assumption. apply P_app; [exact Hw|].
+        apply H_P. subst hl. exact Hh.
     + exists (pairs ++ (concat (wp ++ [w]), sp0) :: hps), [hl].
       split; [rewrite map_app; cbn [map fst app]; reflexivity|]. split.
       * rewrite flat_app, H2. unfold flat. cbn [flat_map fst snd concat]. rewrite concat_snoc, app_nil_r.
@@ -176,14 +189,14 @@ Proof.
       * split; [|split].
         -- intros Hm. rewrite map_app. apply Forall_app. split; [exact Hm|exact H3].
         -- intros _ E. discriminate.
-        -- intros Hb Hn Hw Hh. rewrite H2 in Hh. destruct (nobrace_flat _ _ Hh) as (N1 & N2 & N3).
+        -- intros Hb Hn Hw Hh. rewrite H2 in Hh. destruct (H_flat _ _ Hh) as (N1 & N2 & N3).
            cbn [map fst snd] in N1, N2. inversion N1; subst. inversion N2; subst.
            rewrite !map_app. cbn [map fst snd concat]. rewrite app_nil_r. repeat split.
            ++ apply Forall_app. split; [exact Hb|]. constructor.
-              ** rewrite concat_snoc. apply balanced_app; [exact Hw|apply nobrace_balanced; assumption].
-              ** eapply Forall_impl; [|eassumption]. apply nobrace_balanced.
+              ** rewrite concat_snoc. apply P_app; [exact Hw|apply H_P; assumption].
+              ** eapply Forall_impl; [|eassumption]. apply H_P.
            ++ apply Forall_app. split; [exact Hn|]. constructor; assumption.
-           ++ apply nobrace_balanced. exact N3.
+           ++ apply H_P. exact N3.
 Qed.
 
 Lemma split_loop_unfold m f s result wp :
@@ -205,43 +218,138 @@ Lemma split_loop_spec m : forall fuel s pairs wp out,
     out = map fst pairs' ++ [lastp] /\
     flat pairs ++ concat wp ++ s = flat pairs' ++ lastp /\
     Forall (matched m) (map snd pairs') /\
-    (Forall balanced (map fst pairs) -> Forall nobrace (map snd pairs) -> balanced (concat wp) -> balanced s ->
-       Forall balanced (map fst pairs') /\ Forall nobrace (map snd pairs') /\ balanced lastp).
+    (Forall P (map fst pairs) -> Forall H (map snd pairs) -> P (concat wp) -> P s ->
+       Forall P (map fst pairs') /\ Forall H (map snd pairs') /\ P lastp).
 Proof.
-  induction fuel as [|f IH]; intros s pairs wp out H Hm Hwp; [discriminate|].
-  rewrite split_loop_unfold in H.
+  induction fuel as [|f IH]; intros s pairs wp out Hsl Hm Hwp; [discriminate|].
+  rewrite split_loop_unfold in Hsl.
   destruct (partition_brace s) as [[head brace] rest] eqn:Ep.
   destruct (partition_brace_spec s head brace rest Ep) as [Hs Hnolb].
   destruct (head_step_spec m head pairs wp) as (pairs1 & wp1 & E1 & E2 & E3 & E4 & E5).
-  rewrite E1 in H. destruct brace.
+  rewrite E1 in Hsl. destruct brace.
   - destruct (find_closing_brace rest) as [upto rest'] eqn:Ef.
     pose proof (find_closing_brace_app rest upto rest' Ef) as Hrest.
-    destruct (IH rest' pairs1 (wp1 ++ [[c_lbrace]; upto]) out H (E3 Hm)) as [(_ & _ & Hbad)|(pairs' & lastp & O1 & O2 & O3 & O4)].
+    destruct (IH rest' pairs1 (wp1 ++ [[c_lbrace]; upto]) out Hsl (E3 Hm)) as [(_ & _ & Hbad)|(pairs' & lastp & O1 & O2 & O3 & O4)].
     + intros E. apply app_eq_nil in E as [_ E]. discriminate.
     + apply app_eq_nil in Hbad as [_ Hbad]. discriminate.
     + right. exists pairs', lastp. split; [exact O1|]. split; [|split; [exact O3|]].
       * rewrite <- O2, Hs, Hrest. rewrite concat_app. cbn [concat]. rewrite app_nil_r.
         rewrite (app_assoc (flat pairs)), (app_assoc (flat pairs ++ concat wp)).
         rewrite <- (app_assoc (flat pairs)), E2. rewrite <- !app_assoc. reflexivity.
-      * intros Hb Hn Hw Hbs.
-        assert (Hnb : nobrace head).
-        { apply (nolb_nobrace head (c_lbrace :: rest) Hnolb). unfold balanced in Hbs. rewrite Hs in Hbs. congruence. }
+      * intros Hb Hn Hw Hbs. rewrite Hs in Hbs.
+        destruct (P_group head rest upto rest' Hnolb Hbs Ef) as (Hnb & Hg & Hr').
         destruct (E5 Hb Hn Hw Hnb) as (B1 & B2 & B3).
-        assert (Hd1 : depth_from 1 rest = Some 0).
-        { unfold balanced in Hbs. rewrite Hs, depth_from_app, (nobrace_depth head 0 Hnb) in Hbs. exact Hbs. }
-        destruct (find_closing_brace_balanced rest upto rest' Hd1 Ef) as [Hu Hr'].
         apply O4; try assumption.
-        rewrite concat_app. cbn [concat]. rewrite app_nil_r. apply balanced_app; [exact B3|].
-        unfold balanced. cbn [app depth_from]. exact Hu.
-  - injection H as H. rewrite app_nil_r in Hs. subst head.
+        rewrite concat_app. cbn [concat]. rewrite app_nil_r. apply P_app; [exact B3|exact Hg].
+  - injection Hsl as Hsl. rewrite app_nil_r in Hs. subst head.
     destruct wp1 as [|w1 wp1'] eqn:Ew.
     + destruct (E4 Hwp eq_refl) as (P1 & P2 & P3). subst. left. auto.
-    + right. exists pairs1, (concat (w1 :: wp1')). split; [symmetry; exact H|]. split; [exact E2|].
+    + right. exists pairs1, (concat (w1 :: wp1')). split; [symmetry; exact Hsl|]. split; [exact E2|].
       split; [exact (E3 Hm)|]. intros Hb Hn Hw Hbs.
-      assert (Hnb : nobrace s).
-      { apply (nolb_nobrace s [] Hnolb). rewrite app_nil_r. unfold balanced in Hbs. congruence. }
-      apply (E5 Hb Hn Hw Hnb).
+      apply (E5 Hb Hn Hw (P_nogroup s Hnolb Hbs)).
 Qed.
+End Loop.
+
+(* instance 1: balanced pieces, brace-free separators *)
+Lemma bal_group head rest upto rest' :
+  Forall (fun c => is_lbrace c = false) head -> balanced (head ++ c_lbrace :: rest) ->
+  find_closing_brace rest = (upto, rest') -> nobrace head /\ balanced (c_lbrace :: upto) /\ balanced rest'.
+Proof.
+  intros Hnolb Hbs Ef.
+  assert (Hnb : nobrace head).
+  { apply (nolb_nobrace head (c_lbrace :: rest) Hnolb). unfold balanced in Hbs. congruence. }
+  assert (Hd1 : depth_from 1 rest = Some 0).
+  { unfold balanced in Hbs. rewrite depth_from_app, (nobrace_depth head 0 Hnb) in Hbs. exact Hbs. }
+  destruct (find_closing_brace_balanced rest upto rest' Hd1 Ef) as [Hu Hr'].
+  split; [exact Hnb|]. split; [exact Hu|exact Hr'].
+Qed.
+
+Lemma bal_nogroup head : Forall (fun c => is_lbrace c = false) head -> balanced head -> nobrace head.
+Proof.
+  intros Hnolb Hb. apply (nolb_nobrace head [] Hnolb). rewrite app_nil_r. unfold balanced in Hb. congruence.
+Qed.
+
+Definition split_loop_spec_bal :=
+  split_loop_spec balanced nobrace balanced_app nobrace_balanced nobrace_flat bal_group bal_nogroup.
+
+(* instance 2 (stray closing braces allowed): clamped depth 0 pieces, separators without opening brace *)
+Definition cz (w : str) : Prop := cdepth_from 0 w = 0.
+Definition nolb (w : str) : Prop := Forall (fun c => is_lbrace c = false) w.
+
+Lemma cdepth_app : forall a b d, cdepth_from d (a ++ b) = cdepth_from (cdepth_from d a) b.
+Proof.
+  induction a as [|c a IH]; intros b d; [reflexivity|]. cbn [app cdepth_from].
+  destruct (N.eqb c c_lbrace); [apply IH|]. destruct (N.eqb c c_rbrace); apply IH.
+Qed.
+
+Lemma nolb_cz w : nolb w -> cz w.
+Proof.
+  unfold cz. induction 1 as [|c w Hc _ IH]; [reflexivity|]. cbn [cdepth_from].
+  unfold is_lbrace in Hc. rewrite Hc. destruct (N.eqb c c_rbrace); exact IH.
+Qed.
+
+Lemma cz_app a b : cz a -> cz b -> cz (a ++ b).
+Proof. unfold cz. intros Ha Hb. rewrite cdepth_app, Ha. exact Hb. Qed.
+
+Lemma nolb_flat : forall pairs l, nolb (flat pairs ++ l) ->
+  Forall nolb (map fst pairs) /\ Forall nolb (map snd pairs) /\ nolb l.
+Proof.
+  unfold nolb. induction pairs as [|[p sp] pairs IH]; intros l Hl; [repeat split; [constructor|constructor|exact Hl]|].
+  unfold flat in Hl. cbn [flat_map fst snd] in Hl. rewrite <- !app_assoc in Hl.
+  apply Forall_app in Hl as [Hp Hl]. apply Forall_app in Hl as [Hs Hl].
+  destruct (IH l Hl) as (H1 & H2 & H3). cbn [map fst snd]. repeat split; try constructor; assumption.
+Qed.
+
+Lemma depth_cdepth : forall w d k, depth_from d w = Some k -> cdepth_from d w = k.
+Proof.
+  induction w as [|c w IH]; intros d k Hd; cbn [depth_from] in Hd; cbn [cdepth_from].
+  - injection Hd as ->. reflexivity.
+  - destruct (N.eqb c c_lbrace); [apply IH; exact Hd|].
+    destruct (N.eqb c c_rbrace); [|apply IH; exact Hd].
+    destruct d; [discriminate|]. cbn [pred]. apply IH. exact Hd.
+Qed.
+
+Lemma fcb_pos_spec_c : forall s level i last, cdepth_from (S level) s = 0 ->
+  exists u r, s = u ++ r /\ fcb_pos s (S level) i last = i + length u /\ 0 < length u /\
+              depth_from (S level) u = Some 0 /\ cdepth_from 0 r = 0.
+Proof.
+  induction s as [|c t IH]; intros level i last Hd; cbn [cdepth_from] in Hd; [discriminate|].
+  cbn [fcb_pos]. unfold is_lbrace, is_rbrace.
+  destruct (N.eqb c c_lbrace) eqn:El.
+  - destruct (IH (S level) (S i) (S i) Hd) as (u & r & H1 & H2 & H3 & H4 & H5).
+    exists (c :: u), r. split; [cbn [app]; f_equal; exact H1|]. split; [rewrite H2; cbn [length]; lia|].
+    split; [cbn [length]; lia|]. split; [cbn [depth_from]; rewrite El; exact H4|exact H5].
+  - destruct (N.eqb c c_rbrace) eqn:Er.
+    + destruct level as [|l'].
+      * exists [c], t. split; [reflexivity|]. split; [cbn [length]; lia|]. split; [cbn [length]; lia|].
+        split; [cbn [depth_from]; rewrite El, Er; reflexivity|exact Hd].
+      * cbn [pred] in Hd. destruct (IH l' (S i) (S i) Hd) as (u & r & H1 & H2 & H3 & H4 & H5).
+        exists (c :: u), r. split; [cbn [app]; f_equal; exact H1|]. split; [rewrite H2; cbn [length]; lia|].
+        split; [cbn [length]; lia|]. split; [cbn [depth_from]; rewrite El, Er; exact H4|exact H5].
+    + destruct (IH level (S i) last Hd) as (u & r & H1 & H2 & H3 & H4 & H5).
+      exists (c :: u), r. split; [cbn [app]; f_equal; exact H1|]. split; [rewrite H2; cbn [length]; lia|].
+      split; [cbn [length]; lia|]. split; [cbn [depth_from]; rewrite El, Er; exact H4|exact H5].
+Qed.
+
+Lemma cz_group head rest upto rest' :
+  nolb head -> cz (head ++ c_lbrace :: rest) ->
+  find_closing_brace rest = (upto, rest') -> nolb head /\ cz (c_lbrace :: upto) /\ cz rest'.
+Proof.
+  intros Hnolb Hbs Ef. split; [exact Hnolb|].
+  assert (Hd1 : cdepth_from 1 rest = 0).
+  { unfold cz in Hbs. rewrite cdepth_app, (nolb_cz head Hnolb) in Hbs. exact Hbs. }
+  destruct (fcb_pos_spec_c rest 0 0 0 Hd1) as (u' & r' & H1 & H2 & H3 & H4 & H5).
+  unfold find_closing_brace in Ef. rewrite H2 in Ef. cbn [Nat.add] in Ef.
+  assert (E0 : Nat.eqb (length u') 0 = false) by (apply Nat.eqb_neq; lia).
+  rewrite E0 in Ef. injection Ef as <- <-.
+  rewrite H1. rewrite firstn_app, Nat.sub_diag, firstn_all, app_nil_r.
+  rewrite skipn_app, Nat.sub_diag, skipn_all. cbn [skipn app firstn].
+  split; [|exact H5]. unfold cz. cbn [cdepth_from]. change (N.eqb c_lbrace c_lbrace) with true. cbv iota.
+  apply depth_cdepth. exact H4.
+Qed.
+
+Definition split_loop_spec_cz :=
+  split_loop_spec cz nolb cz_app nolb_cz nolb_flat cz_group (fun head Hn _ => Hn).
 
 (* ------------------------------------------------------------------ top level *)
 Lemma split_raw_unfold m s :
@@ -259,7 +367,7 @@ Lemma split_reassemble_lemma m s pieces :
 Proof.
   rewrite split_raw_unfold. destruct (split_loop _ m s [] []) as [r|] eqn:E; [|discriminate].
   intros H. injection H as ->.
-  destruct (split_loop_spec m _ s [] [] pieces E (Forall_nil _) (fun _ => eq_refl))
+  destruct (split_loop_spec_bal m _ s [] [] pieces E (Forall_nil _) (fun _ => eq_refl))
     as [(H1 & H2 & _)|(pairs' & lastp & O1 & O2 & O3 & _)]; [left; auto|].
   right. exists pairs', lastp. cbn [flat flat_map concat app] in O2. auto.
 Qed.
@@ -274,7 +382,27 @@ Lemma split_top_level_lemma m s pieces :
 Proof.
   intros Hb. rewrite split_raw_unfold. destruct (split_loop _ m s [] []) as [r|] eqn:E; [|discriminate].
   intros H. injection H as ->.
-  destruct (split_loop_spec m _ s [] [] pieces E (Forall_nil _) (fun _ => eq_refl))
+  destruct (split_loop_spec_bal m _ s [] [] pieces E (Forall_nil _) (fun _ => eq_refl))
+    as [(H1 & H2 & _)|(pairs' & lastp & O1 & O2 & O3 & O4)]; [left; auto|].
+  right. exists pairs', lastp. cbn [flat flat_map concat app] in O2.
+  destruct (O4 (Forall_nil _) (Forall_nil _) eq_refl Hb) as (B1 & B2 & B3).
+  split; [exact O1|]. split; [exact O2|]. split; [|exact B2].
+  rewrite O1. apply Forall_app. split; [exact B1|]. constructor; [exact B3|constructor].
+Qed.
+
+(* the same with clamped depth: stray closing braces allowed, every group closed *)
+Lemma split_top_level_c_lemma m s pieces :
+  cdepth_from 0 s = 0 -> split_tex_string_gen m s false false = Ok pieces ->
+  (s = [] /\ pieces = []) \/
+  exists pairs lastp,
+    pieces = map fst pairs ++ [lastp] /\
+    s = flat_map (fun ps => fst ps ++ snd ps) pairs ++ lastp /\
+    Forall (fun p => cdepth_from 0 p = 0) pieces /\
+    Forall (Forall (fun c => is_lbrace c = false)) (map snd pairs).
+Proof.
+  intros Hb. rewrite split_raw_unfold. destruct (split_loop _ m s [] []) as [r|] eqn:E; [|discriminate].
+  intros H. injection H as ->.
+  destruct (split_loop_spec_cz m _ s [] [] pieces E (Forall_nil _) (fun _ => eq_refl))
     as [(H1 & H2 & _)|(pairs' & lastp & O1 & O2 & O3 & O4)]; [left; auto|].
   right. exists pairs', lastp. cbn [flat flat_map concat app] in O2.
   destruct (O4 (Forall_nil _) (Forall_nil _) eq_refl Hb) as (B1 & B2 & B3).
